@@ -1005,6 +1005,11 @@ func (s *SCCP) evalCall1(st *fnState, x *ssa.Call, get func(ssa.Value) AVal, dep
 			if b, ok := s.bindingFor(s.sc.Lens, st.fn, cc.Args[0]); ok {
 				return b
 			}
+			if _, isMM := cc.Args[0].(*ssa.MakeMap); isMM {
+				if b, ok := s.lookupBinding(s.sc.Lens, st.fn, "<local map>"); ok {
+					return b
+				}
+			}
 			a := get(cc.Args[0])
 			if a.isConst() && a.C.Kind() == constant.String {
 				return cInt(int64(len(constant.StringVal(a.C))))
